@@ -25,13 +25,14 @@ var allModes = []modeT{
 }
 
 // runPinned executes a pinned case in every mount mode
-func runPinned(t *testing.T, c caseT) {
+func runPinned(t *testing.T, c caseT) (last *outcome) {
 	t.Helper()
 	for _, m := range allModes {
 		c.Mode = m
-		out := check(t, c)
-		record(c, out)
+		last = check(t, c)
+		record(c, last)
 	}
+	return last
 }
 
 // TestRegressNonDefaultLeafSize: a streamed mount must read a bundle with the leaf size recorded in the
@@ -129,7 +130,10 @@ func TestRegressWideResume(t *testing.T) {
 	}
 	c.Program = append(c.Program, opT{Kind: "readdir", Path: "sub dir", Bufs: []int{nb, 4096, 128}, Resume: []resumeT{{At: 79, Buf: 4096}, {At: 0, Buf: nb}}})
 	c.Program = append(c.Program, opT{Kind: "readdir", Path: "", Bufs: []int{64}, Resume: []resumeT{{At: 0, Buf: 64}, {At: 1, Buf: 64}}})
-	runPinned(t, c)
+	out := runPinned(t, c)
+	if !out.pageMulti || !out.resumedMulti {
+		t.Fatalf("harness: the pinned directory does not need two page-sized buffers (pageMulti=%v resumedMulti=%v)", out.pageMulti, out.resumedMulti)
+	}
 }
 
 // TestRegressDeepAndNames: deep nesting, repeated component names, unicode, prefix-related siblings
